@@ -333,6 +333,52 @@ def scheduler_obligations(name, src, out, samples, scratch):
             out.append({"obligation": f"gen[{name}]:{fname}", "verdict": "unknown", "reason": "outside-subset: " + str(e)})
 
 
+def c_replay_runtime(ob, model):
+    """Re-run a refuted run-time obligation on the real can_signal_parser.c: compile a harness with gcc, compare with the spec."""
+    import re
+    m = re.match(r"can_signal_parser.c:(?:can_(encode_signal_from|decode_signal_as)_)?(\w+?)#", ob)
+    if not m or not model:
+        return None
+    tname = m.group(2)
+    w = int(re.sub(r"\D", "", tname) or 0)
+    signed = tname.startswith("int")
+    g = lambda k, d=0: int(model.get(k, d))
+    start, length, v, data, other = g("start"), g("length"), g("v"), g("data"), g("other")
+    mask = (1 << length) - 1 if length < 64 else 2 ** 64 - 1
+    sv = v - (1 << w) if signed and v >= 1 << (w - 1) else v
+    if "roundtrip" in ob:
+        word = (other & ~(mask << start) & (2 ** 64 - 1)) | (((sv & mask) << start) & (2 ** 64 - 1))
+        expect = sv
+        body = f"CanFrame f = {{0}}; uint64_t w = {word}ULL; memcpy(f.data, &w, 8); long long r = (long long)can_decode_signal_as_{tname}(&f, {start}, {length}, 1.0, 0.0, false); printf(\"%lld\\n\", r);"
+    elif m.group(1) == "decode_signal_as":
+        field = (data >> start) & mask
+        expect = field - (1 << length) if signed and length and field >> (length - 1) & 1 else field
+        if w < 64:
+            expect = ((expect + (1 << (w - 1))) % (1 << w)) - (1 << (w - 1)) if signed else expect % (1 << w)
+        body = f"CanFrame f = {{0}}; uint64_t w = {data}ULL; memcpy(f.data, &w, 8); long long r = (long long)can_decode_signal_as_{tname}(&f, {start}, {length}, 1.0, 0.0, false); printf(\"%lld\\n\", r);"
+    else:
+        expect = ((sv & mask) << start) & (2 ** 64 - 1)
+        if expect >= 2 ** 63:
+            expect -= 2 ** 64
+        body = f"long long r = (long long)can_encode_signal_from_{tname}(({tname}){sv}LL, {start}, {length}, 1.0, 0.0, false); printf(\"%lld\\n\", r);"
+    d = tempfile.mkdtemp(prefix="cvc_replay_")
+    try:
+        src = os.path.join(d, "h.c")
+        open(src, "w").write('#include <stdio.h>\n#include <string.h>\n#include <stdbool.h>\n#include "can_signal_parser.h"\nint main(void){ ' + body + ' return 0; }\n')
+        exe = os.path.join(d, "h")
+        p = subprocess.run(["gcc", "-O0", "-I", TEMPL, src, os.path.join(TEMPL, "can_signal_parser.c"), "-o", exe], capture_output=True, text=True)
+        if p.returncode != 0:
+            return {"error": p.stderr[:400]}
+        r = subprocess.run([exe], capture_output=True, text=True, timeout=20)
+        got = int(r.stdout.strip())
+        return {"inputs": {"type": tname, "v": sv, "start": start, "length": length, "data": data, "other": other},
+                "expected": expect, "observed": got, "reproduced": got != expect}
+    except Exception as e:
+        return {"error": str(e)}
+    finally:
+        shutil.rmtree(d, ignore_errors=True)
+
+
 def main(pid, tier, seed):
     t0 = time.time()
     out, samples = [], []
@@ -378,9 +424,12 @@ def finish(pid, tier, seed, out, samples, t0):
             continue
         if o["verdict"] == "refuted":
             path = os.path.join("replays", pid, hashlib.sha1(o["obligation"].encode()).hexdigest()[:12] + ".json")
+            rp = c_replay_runtime(o["obligation"], o.get("model")) if o["obligation"].startswith("can_signal_parser.c:") else None
+            ok_rp = bool(rp and rp.get("reproduced"))
             json.dump({"property": pid, "obligation": o["obligation"], "verdict": "refuted", "solver_model": o.get("model"),
+                       "replay_on_real_code": rp, "reproduced": ok_rp,
                        "detail": {k: v for k, v in o.items() if k not in ("model",)}}, open(os.path.join(VERIF, path), "w"), indent=1, default=str)
-            print(f"VIOLATION property={pid} replay={path} no-failing-input-found")
+            print(f"VIOLATION property={pid} replay={path}" + ("" if ok_rp else " no-failing-input-found"))
             viol += 1
             rc = 1
         else:
